@@ -324,7 +324,8 @@ func (g *G) attr(a string, c *svcCtx) *Y {
 			case 0:
 				y.Add(Str(tgt))
 			case 1:
-				y.Add(Str(g.pick("bindsrc", []string{"./src", "../rel", ".", "/abs/src", "~/home"}) + ":" + tgt + g.pick("volmode", []string{"", ":ro", ":rw,z"})))
+				// the source of a short bind mount is the classic place for a variable (with a default: one more colon)
+				y.Add(Str(g.interp(g.pick("bindsrc", []string{"./src", "../rel", ".", "/abs/src", "~/home"}), c).S + ":" + tgt + g.pick("volmode", []string{"", ":ro", ":rw,z"})))
 			case 2:
 				if len(c.volumes) > 0 {
 					y.Add(Str(g.pick("volname", c.volumes) + ":" + tgt))
@@ -1199,10 +1200,13 @@ func (g *G) addExtends(doc, svcs *Y, c *svcCtx, root string, density int) {
 			local = append(local, name)
 			continue
 		}
-		switch g.n("ext-kind", 3) {
-		case 0:
+		switch g.n("ext-kind", 4) {
+		case 0, 1:
 			if len(local) > 0 {
 				tgt := local[g.n("ext-local", len(local))]
+				if g.chance("ext-chain", 1, 2) {
+					tgt = local[len(local)-1] // the service just before: chains inside one file
+				}
 				if g.chance("ext-short", 1, 2) {
 					s.Set("extends", Str(tgt))
 				} else {
@@ -1220,6 +1224,14 @@ func (g *G) addExtends(doc, svcs *Y, c *svcCtx, root string, density int) {
 						}
 						if k == g.focus || g.chance("ext-refine", 1, 4) {
 							if v := g.attr(k, &cc); v != nil {
+								s.Set(k, v)
+							}
+						} else if g.on("reset") && g.chance("ext-tag", 1, 6) {
+							// what the base says is dropped, or replaced wholesale, by the extending service
+							if g.chance("ext-tag-reset", 1, 2) {
+								s.Set(k, &Y{S: "null", Raw: true, Tag: "!reset"})
+							} else if v := g.attr(k, &cc); v != nil && v.Tag == "" {
+								v.Tag = "!override"
 								s.Set(k, v)
 							}
 						}
